@@ -209,6 +209,11 @@ def corruptions(kind, spec, other_state="zz9", other_symbol="k"):
         out.append(("label_in_fa_format", add("%s %s %s" % (q, q, b))))
         if spec["S"]:
             out.append(("input_symbol_not_on_tape", decl("input_symbols", lambda l: l + " K")))
+    if kind == "nfa":
+        # a label that is not a word (\w+) in a description that leaves the alphabet to be derived from the transitions
+        bare = undeclared_base(kind, spec)
+        for bad in ("#", "a-c", "a,b"):
+            out.append(("symbol_not_a_word_alphabet_omitted", bare + "\n%s %s %s" % (q, q, bad)))
     if kind in ("pda", "tm"):
         # the same ill-formed labels in a description that leaves the alphabets to be derived from the transitions
         bare = undeclared_base(kind, spec)
@@ -220,4 +225,4 @@ def corruptions(kind, spec, other_state="zz9", other_symbol="k"):
 
 def undeclared_base(kind, spec):
     """The description without the optional alphabet declarations (they are derived from the transitions then)."""
-    return render(kind, spec, {"group": False, "omit": ["input", "stack"] if kind == "pda" else (["input", "tape"] if kind == "tm" else [])})
+    return render(kind, spec, {"group": False, "omit": ["input", "stack"] if kind == "pda" else (["input", "tape"] if kind == "tm" else ["input"])})
